@@ -1004,6 +1004,11 @@ fn gen_preface(rng: &mut StdRng, n: usize, ops: &mut Vec<Value>) {
         ops.push(json!({"op": "preface", "s1": bytes_json(&s1), "s1dec": s1dec, "hs": true, "hs_mode": "ok",
             "s3": bytes_json(&s3), "s3plain": bytes_json(&s3), "tamper": false, "s3dec": s3dec}));
     }
+    for hs in ["big49", "big257", "big4096", "bigmax", "maxshort", "tiny", "short"] {
+        let s1 = framed(&enc_ok);
+        ops.push(json!({"op": "preface", "s1": bytes_json(&s1), "s1dec": true, "hs": false, "hs_mode": hs,
+            "s3": bytes_json(&[]), "s3plain": bytes_json(&[]), "tamper": false, "s3dec": false}));
+    }
     for _ in 0..n {
         // stage 1
         let body1: Vec<u8> = match rng.gen_range(0..20) { 0 => vec![], 1 => vec![0xff, 0x01], 2 => vec![0x12, 0x00], _ => enc_ok.clone() };
@@ -1012,7 +1017,8 @@ fn gen_preface(rng: &mut StdRng, n: usize, ops: &mut Vec<Value>) {
         s1.extend_from_slice(&body1);
         if rng.gen_bool(0.04) { s1.truncate(rng.gen_range(0..=s1.len())); }
         let s1dec = s1.len() >= 4 + decl1 && matches!(entry::decode("preface.Encryption", &s1[4..4 + decl1]), Some(Ok(_)));
-        let mut hs = *["ok", "ok", "ok", "ok", "ok", "ok", "ok", "ok", "ok", "tiny", "short", "none"].choose(rng).unwrap();
+        let mut hs = *["ok", "ok", "ok", "ok", "ok", "ok", "ok", "ok", "ok", "tiny", "short", "none",
+                       "big257", "big4096", "bigmax", "big49", "maxshort"].choose(rng).unwrap();
         if s1.len() < 4 + decl1 { hs = "none"; } // an incomplete first frame would swallow the handshake bytes
         // stage 3 (plaintext that the client encrypts correctly)
         let body3: Vec<u8> = match rng.gen_range(0..8) { 0 => vec![], 1 => vec![0xff], 2 => ep(3), 3 => ep(2), _ => ep(1) };
@@ -1587,6 +1593,14 @@ impl C10 {
                     "none" => {}
                     "tiny" => { c.write_all(&[5, 0, 1, 2, 3, 4, 5]).await?; }
                     "short" => { c.write_all(&[48, 0, 1, 2, 3, 4, 5, 6, 7, 8, 9, 10]).await?; }
+                    // handshake frames whose announced length is far above the 32/48 bytes an honest peer sends,
+                    // fully present ("big*") or cut short ("maxshort"): must end in an error, never in a panic
+                    "big257" | "big4096" | "bigmax" | "big49" => {
+                        let n: usize = match mode.as_str() { "big257" => 257, "big4096" => 4096, "big49" => 49, _ => 65535 };
+                        c.write_all(&(n as u16).to_le_bytes()).await?;
+                        c.write_all(&vec![0x5au8; n]).await?;
+                    }
+                    "maxshort" => { c.write_all(&[0xff, 0xff, 1, 2, 3, 4, 5, 6, 7, 8, 9, 10]).await?; }
                     _ => {
                         let mut hs = snow::Builder::new(noise_params()).build_initiator().unwrap();
                         let mut buf = vec![0u8; 65536];
